@@ -2128,7 +2128,23 @@ func (db *DB) CommitJournal(ctx context.Context, mode JournalMode) (err error) {
 		TraceLog.Printf("[CommitJournalPage(%s)]: pgno=%d chksum=%s %s", db.name, pgno, pageChksum, errorKeyValue(err))
 	}
 
-	// Remove all checksums after last page.
+	// Remove all checksums after last page. The pages themselves stay in the
+	// file until SQLite truncates it after the commit, and they stay for good
+	// if the commit fails below and SQLite rolls the transaction back, so put
+	// their checksums back in that case.
+	removedChksums := make(map[uint32]ltx.Checksum)
+	committed := false
+	defer func() {
+		if committed {
+			return
+		}
+		db.chksums.mu.Lock()
+		defer db.chksums.mu.Unlock()
+		for pgno, chksum := range removedChksums {
+			db.setDatabasePageChecksum(pgno, chksum)
+		}
+	}()
+
 	func() {
 		db.chksums.mu.Lock()
 		defer db.chksums.mu.Unlock()
@@ -2143,6 +2159,9 @@ func (db *DB) CommitJournal(ctx context.Context, mode JournalMode) (err error) {
 			}
 
 			pageChksum, _ := db.pageChecksum(pgno, db.PageN(), nil)
+			if prev := db.chksums.pages[i]; prev != 0 {
+				removedChksums[pgno] = prev
+			}
 			db.setDatabasePageChecksum(pgno, 0)
 			TraceLog.Printf("[CommitJournalRemovePage(%s)]: pgno=%d chksum=%s %s", db.name, pgno, pageChksum, errorKeyValue(err))
 		}
@@ -2198,6 +2217,7 @@ func (db *DB) CommitJournal(ctx context.Context, mode JournalMode) (err error) {
 	}
 
 	// Update database flags.
+	committed = true
 	db.pageN.Store(commit)
 	db.mode.Store(dbMode)
 
